@@ -326,7 +326,12 @@ def valuations(names, t):
 
 
 def seam_a(res, t):
-    from statemachine.spec_parser import operator_mapping, parse_boolean_expr
+    try:
+        from statemachine.spec_parser import operator_mapping, parse_boolean_expr
+    except ImportError:
+        # the parser seam moved: no opinion here, the end-to-end seam (b) still decides
+        res.stats["seam_a_unavailable"] = 1
+        return
     names = names_of(t)
     vals_list = valuations(names, t)
     for expr, py, toks, opmask in renderings(t):
